@@ -14,9 +14,10 @@ import (
 func init() { register("C01", runC01) }
 
 type c01Case struct {
-	Profile  string `json:"profile,omitempty"`   // canonical token form
-	Bytes    string `json:"bytes,omitempty"`     // hex, for the accepted-bytes stream
-	EditSeed uint64 `json:"edit_seed,omitempty"` // history stream: serialize, edit in memory (seeded), serialize again
+	Profile  string      `json:"profile,omitempty"`   // canonical token form
+	Bytes    string      `json:"bytes,omitempty"`     // hex, for the accepted-bytes stream
+	EditSeed uint64      `json:"edit_seed,omitempty"` // history stream: serialize, edit in memory (seeded), serialize again
+	CLI      *c01CLISpec `json:"cli,omitempty"`       // driver stream (c01_cli.go): Profile through the real pprof binary
 }
 
 // editProfile applies 1..4 validity-preserving in-memory edits to p (the kind of thing pprof
@@ -130,7 +131,6 @@ func c01History(c *Ctx, canon1 string, editSeed uint64) {
 		c.Disagree("C01/history/model-parse/"+firstWord(mp), "model parser on Go's second-serialization bytes does not give normalize(p)", "correspondence Codec.serialize ~ WriteUncompressed (purity: output depends on exported fields only)", cs)
 	}
 }
-
 
 // safely runs f, converting a panic into an error string.
 func safely(f func()) (panicked string) {
@@ -351,7 +351,13 @@ func diffField(a, b string) string {
 		}
 	}):
 		return "sample-labels"
-	case sec(func(w *tw, p *profile.Profile) { q := *p; q.Sample = nil; q.Location = nil; q.Function = nil; w.profile(&profile.Profile{Mapping: q.Mapping}) }):
+	case sec(func(w *tw, p *profile.Profile) {
+		q := *p
+		q.Sample = nil
+		q.Location = nil
+		q.Function = nil
+		w.profile(&profile.Profile{Mapping: q.Mapping})
+	}):
 		return "mapping"
 	case sec(func(w *tw, p *profile.Profile) { w.profile(&profile.Profile{Location: p.Location}) }):
 		return "location"
@@ -381,7 +387,9 @@ func runC01(c *Ctx) {
 			c.Res.HarnessError = err.Error()
 			return
 		}
-		if cs.Profile != "" && cs.EditSeed != 0 {
+		if cs.Profile != "" && cs.CLI != nil {
+			c01CLIEval(c, cs.Profile, *cs.CLI, c01CLIExec(c, cs.Profile, *cs.CLI, 0))
+		} else if cs.Profile != "" && cs.EditSeed != 0 {
 			c01History(c, cs.Profile, cs.EditSeed)
 		} else if cs.Profile != "" {
 			c01Profile(c, cs.Profile)
@@ -430,4 +438,7 @@ func runC01(c *Ctx) {
 			c.Res.Count("b:"+hex.EncodeToString(mb), acc)
 		}
 	}
+	// driver level: the same strategies through the real pprof binary (own PRNG stream, so that the
+	// in-process streams above do not depend on it)
+	c01CLIStream(c, NewRng(c.Seed^0xC01C11), 240*c.Scale)
 }
